@@ -94,6 +94,8 @@ Inductive trel (c : cfg) : pc -> tpc -> Prop :=
 | R_probe q : trel c (PA_probe q) (TA_probe q FL_PUSH)
 | R_wake q tg : trel c (PA_wake q tg) (TA_wake_load q FL_PUSH)
 | R_rootpush : trel c PA_rootpush TA_push_tq
+| R_oprobe q : trel c (PA_oprobe q) (TA_linked q)
+| R_owake q : trel c (PA_owake q) (TA_wake_load q FL_CONSUME_2)
 | R_lock0 : trel c (PW_lock (c_floor c)) TIdle
 | R_lock f0 old x :
     f_dispatch_queue_drain_try_lock 0 0 1 (c_self c) f0 old 0 = Restart x ->
@@ -223,6 +225,12 @@ Section Sim.
   Qed.
   Lemma t_probe q fl v : tstep c (TA_probe q fl) (mkS S_probe dq v v 1) = Some (if v =? 0 then TA_ret else TA_wake_load q fl).
   Proof. unfold tstep, probe_step. fold dq. rewrite site_hit. reflexivity. Qed.
+  Lemma t_oprobe q v :
+    tstep c (TA_linked q) (mkS S_probe dq v v 1) = Some (if v =? 0 then TA_ret else TA_wake_load q FL_CONSUME_2).
+  Proof. unfold tstep, probe_step. fold dq. ev. reflexivity. Qed.
+  Lemma t_wake_giveup q fl old x y :
+    wakeup_loop 0 q fl 1 old ENQUEUED = NoCommit x y -> tstep c (TA_wake_body q fl old) (mkU DVU_RET 0 0) = Some TIdle.
+  Proof. intros H. unfold tstep. rewrite H. reflexivity. Qed.
   Lemma t_wake_load q fl v : tstep c (TA_wake_load q fl) (mkS S_wake_load dq v v 1) = Some (TA_wake_body q fl v).
   Proof. unfold tstep. fold dq. rewrite site_hit. reflexivity. Qed.
   Lemma t_wake_cas q fl old new r :
@@ -355,7 +363,7 @@ Proof.
   assert (HS : nz (f_dq_state_is_suspended (st s)) = false).
   { destruct I as [[r Gr] _]. rewrite (g_enc _ _ Gr), is_suspended_f by (exact (g_wf _ _ Gr)). rewrite (g_hi _ _ Gr). reflexivity. }
   unfold gstep in G. inversion R as
-    [ E1 | q E1 | i we q item prev Hwe E1 | q E1 | q tg E1 | E1 | E1 | f0 old x Hr E1 | o E1 | o E1 | o E1 | o h Hh E1
+    [ E1 | q E1 | i we q item prev Hwe E1 | q E1 | q tg E1 | E1 | q E1 | q E1 | E1 | f0 old x Hr E1 | o E1 | o E1 | o E1 | o h Hh E1
     | o i m h n Hm E1 | o i m h n Hm E1 | o n Hn E1 | o E1 | o E1 | o E1 | o old x y Hn E1 ];
     rewrite <- E1 in G; subst p.
   - (* Idle *) discriminate.
@@ -409,6 +417,37 @@ Proof.
     cbn [taccept]. unfold dq. rewrite t_push_tq, t_push_init, t_push_xchg, t_push_link. rewrite t_ret by (left; reflexivity).
     unfold set_token, set_pc, set_rootq; cbn [pcs st]. rewrite upd_same. repeat split; [constructor|].
     rewrite !so_field by (cbn; lia). rewrite so_user by (unfold DVU_RET; lia). reflexivity.
+  - (* PA_oprobe: the probe of the override wakeup *)
+    apply Some_inj in G. subst s'. destruct (lst s).
+    + exists [mkS S_probe dq 0 0 1; mkU DVU_RET 0 0], TIdle.
+      cbn [taccept]. unfold dq. rewrite t_oprobe. cbn [Z.eqb]. rewrite t_ret by (left; reflexivity).
+      unfold set_pc; cbn [pcs st]. rewrite upd_same. repeat split; [constructor|].
+      rewrite so_field by (cbn; lia). rewrite so_user by (unfold DVU_RET; lia). reflexivity.
+    + exists [mkS S_probe dq 1 1 1], (TA_wake_load q FL_CONSUME_2).
+      cbn [taccept]. unfold dq. rewrite t_oprobe. cbn [Z.eqb].
+      unfold set_pc; cbn [pcs st]. rewrite upd_same. repeat split; [constructor|].
+      rewrite so_field by (cbn; lia). reflexivity.
+  - (* PA_owake: the rmw loop without MAKE_DIRTY *)
+    destruct (wakeup_loop 0 q 1 1 (st s) ENQUEUED) as [new r|x y| |] eqn:W; try discriminate.
+    + apply Some_inj in G.
+      assert (WD : dirty_rule_wake FL_CONSUME_2 new = true) by reflexivity.
+      destruct (negb (Z.land (Z.lxor (st s) new) ENQUEUED =? 0)) eqn:Enq.
+      * exists [mkS S_wake_load dq (st s) (st s) 1; mkS S_wake_cas dq (st s) new 1], TA_push_tq.
+        cbn [taccept]. unfold dq. rewrite t_wake_load. rewrite (t_wake_cas c q FL_CONSUME_2 (st s) new r W WD). rewrite Enq.
+        subst s'. unfold set_token, set_pc, set_st; cbn [pcs st]. rewrite upd_same.
+        repeat split; [constructor|].
+        rewrite so_load by reflexivity. rewrite so_cas by reflexivity. reflexivity.
+      * exists [mkS S_wake_load dq (st s) (st s) 1; mkS S_wake_cas dq (st s) new 1; mkU DVU_RET 0 0], TIdle.
+        cbn [taccept]. unfold dq. rewrite t_wake_load. rewrite (t_wake_cas c q FL_CONSUME_2 (st s) new r W WD). rewrite Enq.
+        rewrite t_ret by (left; reflexivity).
+        subst s'. unfold set_token, set_pc, set_st; cbn [pcs st]. rewrite upd_same.
+        repeat split; [constructor|].
+        rewrite so_load by reflexivity. rewrite so_cas by reflexivity. rewrite so_user by (unfold DVU_RET; lia). reflexivity.
+    + apply Some_inj in G. subst s'.
+      exists [mkS S_wake_load dq (st s) (st s) 1; mkU DVU_RET 0 0], TIdle.
+      cbn [taccept]. unfold dq. rewrite t_wake_load. rewrite (t_wake_giveup c q FL_CONSUME_2 (st s) x y W).
+      unfold set_pc; cbn [pcs st]. rewrite upd_same. repeat split; [constructor|].
+      rewrite so_load by reflexivity. rewrite so_user by (unfold DVU_RET; lia). reflexivity.
   - (* PW_lock, first iteration *)
     rewrite <- Hself in G.
     destruct (f_dispatch_queue_drain_try_lock 0 0 1 (c_self c) (c_floor c) (st s) 0) as [new owned| |x|] eqn:L; try discriminate.
@@ -522,6 +561,22 @@ Proof.
     rewrite so_xor by reflexivity. reflexivity.
 Qed.
 
+(* the other continuation of a push onto a non-empty list: the link store, then the probe of the override wakeup *)
+Theorem ostep_tstep c s t s' p :
+  ostep s t = Some s' -> trel c (pcs s t) p ->
+  exists evs p', taccept c p evs = Some p' /\ trel c (pcs s' t) p' /\ state_obs c (st s) evs = Some (st s').
+Proof.
+  intros G R. unfold ostep in G.
+  destruct (pcs s t) as [| |i we q| | | | | | | | | | | | | |] eqn:E; try discriminate.
+  destruct we; [discriminate|]. apply Some_inj in G. subst s'.
+  inversion R as [ | | i' we' q' item prev Hwe | | | | | | | | | | | | | | | | | | ]. subst.
+  destruct (Z.eqb_spec prev 0) as [->|Hp]; [discriminate|].
+  exists [mkS S_push_link_next prev 0 item 1], (TA_linked q).
+  cbn [taccept]. rewrite t_link_next by exact Hp.
+  unfold set_pc, set_lst; cbn [pcs st]. rewrite upd_same. repeat split; [constructor|].
+  rewrite so_field by (cbn; lia). reflexivity.
+Qed.
+
 (* lifted to runs: in every reachable state of the global model (workers entering with the configured QoS floor), the
    program point of a thread is matched by a point the automaton reaches from TIdle on some accepted observation sequence *)
 Definition step_fl (fl : Z) (s : gst) (a : action) (s' : gst) : Prop :=
@@ -548,7 +603,7 @@ Proof.
   - subst s. exists [], TIdle. split; [reflexivity | constructor].
   - destruct IH as (evs & p & A & Tr).
     assert (I : Inv s) by (eapply Inv_reachable; [exact Hrb | eapply reach_fl_reach; exact R]).
-    destruct a as [u cl|u]; destruct St as [Vu St].
+    destruct a as [u cl|u|u]; destruct St as [Vu St].
     + destruct (Z.eq_dec u (c_self c)) as [->|N].
       * assert (p = TIdle).
         { unfold begin in St. destruct (pcs s (c_self c)) eqn:E; try discriminate. inversion Tr. reflexivity. }
@@ -561,6 +616,10 @@ Proof.
       * destruct (gstep_tstep c s (c_self c) s' p I eq_refl St Tr) as (e2 & p' & A2 & Tr2 & _).
         exists (evs ++ e2), p'. rewrite (taccept_app _ _ _ _ _ A). split; assumption.
       * exists evs, p. split; [exact A|]. rewrite (SLane_progress.gstep_frame s u s' (c_self c) St) by congruence. exact Tr.
+    + destruct (Z.eq_dec u (c_self c)) as [->|N].
+      * destruct (ostep_tstep c s (c_self c) s' p St Tr) as (e2 & p' & A2 & Tr2 & _).
+        exists (evs ++ e2), p'. rewrite (taccept_app _ _ _ _ _ A). split; assumption.
+      * exists evs, p. split; [exact A|]. rewrite (SLane_progress.ostep_frame s u s' (c_self c) St) by congruence. exact Tr.
 Qed.
 
 (* ================================================================== non-vacuity *)
